@@ -791,6 +791,7 @@ pub fn run(tier_name: &str, seed: u64) -> i32 {
                 tally.bump("random_draws", c.n_rng);
                 tally.bump("clock_reads", c.n_clock_reads);
                 tally.bump("fault_clock_leap_fired", c.n_clock_jumps_fired);
+                tally.bump("simulated_time_us", c.clock_ns.saturating_sub(1_000_000_000) / 1000);
                 tally.bump("par_calls", c.n_par_calls);
                 tally.bump("par_calls_multiworker", c.n_par_multiworker);
                 tally.bump("find_any_races", c.n_find_any_races);
